@@ -7,7 +7,7 @@ implementation-shaped connection model spec/Channel.tla (see checks/chan_model.p
 from checks import chan_common as cc
 from checks import chan_model
 
-LEVEL = "exploration"
+LEVEL = "model_checking"
 
 
 def scenarios(thorough):
@@ -49,7 +49,7 @@ def scenarios(thorough):
 
 def run(chk, replay=None):
     scns = scenarios(chk.thorough)
-    chan_model.model_check(chk, "C04")
+    chan_model.model_check(chk, "C04", scns)
     n_pct, dfs = (1500, 4000) if chk.thorough else (150, 700)
     cc.explore_and_validate(chk, "C04", scns, n_pct, dfs, bound=2, label="pipelining")
     chk.rule = ("cases = schedules of the real server (I/O loop + workers + client, pre-emption at every lock/socket/trigger operation and every access to a shared channel attribute) "
